@@ -337,6 +337,8 @@ def drive_parallel(binary, reqs, jobs=None, **kw):
 def crash_sig(info):
     if info.get("timed_out"):
         return "timeout"
+    if info.get("rc") == 79 or "CASE-WATCHDOG" in info.get("stderr", ""):
+        return "hang (case watchdog: a handler never returned)"
     return info.get("sig") or san_signature(info.get("stderr", "")) or "abnormal-exit rc=%s" % info.get("rc")
 
 
@@ -344,7 +346,7 @@ def memcheck(binary, args, stdin=None, timeout=7200):
     """runs an uninstrumented harness under valgrind memcheck; returns (run_proc result, [(kind, first qxmpp frame, text block)])"""
     import re
     cmd = ["valgrind", "--tool=memcheck", "--error-exitcode=99", "--leak-check=no", "--num-callers=30", "--track-origins=yes", "--error-limit=no", binary] + [str(a) for a in args]
-    env = dict(os.environ, VERIF_ALARM_SCALE="60")   # valgrind is 30-50x slower: the harness's own watchdog must not fire
+    env = dict(os.environ, VERIF_ALARM_SCALE="10")   # valgrind is 30-50x slower: the harness's own watchdog must not fire
     env.pop("ASAN_OPTIONS", None)
     try:
         p = subprocess.run(cmd, input=stdin, capture_output=True, text=True, timeout=timeout, env=env)
